@@ -69,7 +69,10 @@ def c03_2(ctx):
             ctx.fail(fn, c, 'reindex target is %s, not the common index `%s`' % (U(c.args[0]) if c.args else '?', index))
     for c in filled:
         recv = N(c.func.value)
-        if recv not in ('_nona(%s)' % ts, 'nona(%s)' % ts, '%s.dropna()' % ts):
+        if recv in ('%s.dropna()' % ts, NS("%s.dropna(how='any')" % ts)):
+            ctx.fail(fn, c, 'the series is stripped with `%s` before the as-of fill: for a DataFrame dropna() defaults to how="any" and discards rows that are only partially NaN, so surviving timestamps lose real values in their other columns' % recv,
+                     witness='a two-column frame with a partially-NaN row, df_reindex(..., method="ffill")')
+        elif recv not in ('_nona(%s)' % ts, 'nona(%s)' % ts, NS("%s.dropna(how='all')" % ts)):
             ctx.fail(fn, c, 'as-of fill is applied to `%s`; NaN observations would be carried forward instead of the last non-NaN value' % recv)
         m = kw(c, 'method')
         if N(m) != 'methods[0]':
@@ -116,8 +119,16 @@ def c03_3(ctx):
                     found += 1
                     ctx.count(1, fn.where(body[0]))
                     cc = [c for s in body for c in calls_in(s, 'concatenate')]
-                    if not cc or not isinstance(cc[0].args[0], (ast.List, ast.Tuple)) or len(cc[0].args[0].elts) != 2:
-                        ctx.fail(fn, body[0], 'a shorter array is no longer padded by concatenation')
+                    pads = [c for s in body for c in calls_in(s, 'pad')]
+                    if pads and not cc:
+                        pw = pads[0].args[1] if len(pads[0].args) > 1 else kw(pads[0], 'pad_width')
+                        if isinstance(pw, ast.Tuple) and len(pw.elts) == 2 and not any(isinstance(e, ast.Tuple) for e in pw.elts):
+                            ctx.fail(fn, pads[0], 'np.pad with the flat width %s pads EVERY axis: a 2-d array shorter than the common length gains all-NaN leading columns as well as rows' % U(pw),
+                                     witness='df_reindex of a (5, 2) array to length 7 has shape (7, 4)')
+                        else:
+                            raise AnalysisError('unrecognised np.pad form in the array branch: %s' % U(pads[0]))
+                    elif not cc or not isinstance(cc[0].args[0], (ast.List, ast.Tuple)) or len(cc[0].args[0].elts) != 2:
+                        ctx.fail(fn, body[0], 'a shorter array is no longer padded in front with NaN rows')
                     else:
                         first, second = cc[0].args[0].elts
                         if U(second) != ts or 'nan' not in U(first):
@@ -287,6 +298,11 @@ def c03_7(ctx):
     else:
         if len(dc[0].args) < 2 or U(dc[0].args[1]) != 'columns':
             ctx.fail(fn, dc[0], 'df_columns is not given the column policy')
+    index_collection_complete(ctx)
+    _c03_7_rest(ctx)
+
+
+def index_collection_complete(ctx):
     # df_index: pandas indexes from every listed member
     fn = ctx.repo.fn('_pandas:df_index')
     ctx.count(1, fn.where())
@@ -298,9 +314,15 @@ def c03_7(ctx):
         d = single_assign(fn, it)
         if d is None or N(d) != '_list(%s)' % fn.params[0]:
             ctx.fail(fn, comp[0], 'indexes are collected from `%s`, not from the flattened argument' % it)
-        cond = ' '.join(N(i) for i in comp[0].generators[0].ifs)
-        if 'is_pd(' not in cond:
-            ctx.fail(fn, comp[0], 'index collection is not restricted to pandas objects: %s' % cond)
+        v = U(comp[0].generators[0].target)
+        conds = [N(i) for i in comp[0].generators[0].ifs]
+        want = NS('is_pd(%s) or _is_dict_indexed(%s)' % (v, v))
+        if conds != [want]:
+            ctx.fail(fn, comp[0], 'the indexes entering the common index are filtered with `%s` instead of `%s`: some timeseries (e.g. empty ones) are left out, so the result is not on the intersection/union of ALL operand indices' % (' and '.join(conds), want),
+                     witness='add_(ts, ts.iloc[:0]) with the default inner join')
+
+
+def _c03_7_rest(ctx):
     # df_reindex: string policy -> df_index(ts, index)
     fn = ctx.repo.fn('_pandas:df_reindex')
     ctx.count(1, fn.where())
